@@ -79,6 +79,8 @@ def inst_from_tlc(j):
 
 LABELS = {'id': (lambda n: n, lambda l: l),
           'zero': (lambda n: n - 1, lambda l: l + 1),            # 0-based labels: one label is falsy
+          'z2': (lambda n: n - 2, lambda l: l + 2),              # node 2 gets the falsy label 0
+          'z3': (lambda n: 3 - n, lambda l: 3 - l),              # node 3 gets 0 (order reversed)
           'str': (lambda n: 'abcdefghij'[n - 1], lambda l: 'abcdefghij'.index(l) + 1),
           'neg': (lambda n: 3 - 2 * n, lambda l: (3 - l) // 2)}   # 1, -1, -3, ...
 
@@ -262,6 +264,12 @@ def dangling(m):
                         out.append([key_of(x), key_of(p)])
                 if len(x.prev) > 1:
                     out.append([key_of(x), 'several-best-predecessors'])
+            for k, x in L.items():
+                # the dictionary key must be the (state, observation, depth) the entry claims -- computed here
+                # from the entry's own segment labels, not through the library's key property
+                want = (x.edge_m.l1, x.obs, x.obs_ne) if x.edge_m.l2 is None else (x.edge_m.l1, x.edge_m.l2, x.obs, x.obs_ne)
+                if tuple(k) != want:
+                    out.append([key_of(x), 'filed-under-another-key'])
     return out
 
 
